@@ -6,17 +6,17 @@ mod c14_sched {
     include!(concat!(env!("IPA_VERIF_DIR"), "/c14_sched.rs"));
 }
 
-#[cfg(not(feature = "shuttle"))]
+#[cfg(all(not(feature = "shuttle"), feature = "descriptive-gate"))]
 mod c14_circ {
     include!(concat!(env!("IPA_VERIF_DIR"), "/c14_circ.rs"));
 }
 
-#[cfg(not(feature = "shuttle"))]
+#[cfg(all(not(feature = "shuttle"), feature = "descriptive-gate"))]
 mod c14_recv {
     include!(concat!(env!("IPA_VERIF_DIR"), "/c14_recv.rs"));
 }
 
-#[cfg(not(feature = "shuttle"))]
+#[cfg(all(not(feature = "shuttle"), feature = "descriptive-gate"))]
 mod c14_send {
     include!(concat!(env!("IPA_VERIF_DIR"), "/c14_send.rs"));
 }
